@@ -712,3 +712,128 @@ CHECK_DEADLOCK FALSE
 
 
 CHECKS["C19"] = c19
+
+
+# --------------------------------------------------------------------------- C20: the bounded cache
+
+CACHE_ALLOWED_TIME = {"Duration", "Time", "Timer", "Millisecond", "Second", "Minute", "Hour", "Microsecond", "Nanosecond"}
+
+
+def rewrite_cache(work):
+    """Rewrites internal/cache/cache.go of the CURRENT tree so that it runs on the virtual clock of
+    harness/inpkg/cache/vclock_verif.go; returns the overlay file. Unknown uses of package time make the check
+    inconclusive instead of silently losing control of the clock."""
+    import re
+    src = os.path.join(vlib.REPO, "internal", "cache", "cache.go")
+    with open(src) as f:
+        code = f.read()
+    new, n1 = re.subn(r"\btime\.Now\(\)", "vNow()", code)
+    new, n2 = re.subn(r"\btime\.AfterFunc\(", "vAfterFunc(", new)
+    new, n3 = re.subn(r"\*time\.Timer\b", "*vTimer", new)
+    new, n4 = re.subn(r"\bgo (c\.pruneCount)\(\)", r"vGo(\1)", new)
+    left = set(re.findall(r"\btime\.([A-Za-z]+)", new))
+    unknown = left - CACHE_ALLOWED_TIME
+    if unknown or re.search(r"\bgo\s+(func|[a-zA-Z_.]+\()", new) or min(n1, n2, n3, n4) == 0:
+        raise Inconclusive("cache.go uses the clock or goroutines in a way the rewriter does not know: time.%s; rewrites now=%d afterfunc=%d timer=%d go=%d"
+                           % (sorted(unknown), n1, n2, n3, n4))
+    d = work.sub("cache-overlay")
+    with open(os.path.join(d, "cache.go"), "w") as f:
+        f.write(new)
+    inj = os.path.join(vlib.HARNESS, "inpkg", "cache")
+    pkg = os.path.join(vlib.REPO, "internal", "cache")
+    ov = {"Replace": {src: os.path.join(d, "cache.go"),
+                      os.path.join(pkg, "vclock_verif.go"): os.path.join(inj, "vclock_verif.go"),
+                      os.path.join(pkg, "verif_driver_test.go"): os.path.join(inj, "verif_driver_test.go")}}
+    ovf = os.path.join(d, "overlay.json")
+    with open(ovf, "w") as f:
+        json.dump(ov, f)
+    return ovf, dict(now=n1, afterfunc=n2, timer=n3, go=n4)
+
+
+CACHE_CFG = """SPECIFICATION %(spec)s
+CONSTANTS
+  Keys = %(keys)s
+  Age = %(age)d
+  Count = %(count)d
+  Step = 11
+  MaxT = %(maxt)d
+  FailKeys = %(fail)s
+  None = None
+%(extra)s
+CHECK_DEADLOCK FALSE
+"""
+CACHE_PROPS = """VIEW View
+CONSTRAINT PendingBound
+PROPERTY CleanupBeforeRemoval
+PROPERTY FailedKept
+PROPERTY NoEarlyExpiry
+PROPERTY LRUFirst
+INVARIANT BoundedAtRest"""
+
+
+def c20(prop, tier, seed, work):
+    t0 = time.time()
+    quick = tier == "quick"
+    ovf, rew = rewrite_cache(work)
+    # (1) exhaustive: the model satisfies C20 for small constants
+    states = trans = 0
+    notes = []
+    mcs = [(3, 20, 2, "{k3}"), (3, 20, 1, "{}"), (3, 0, 2, "{}")] if quick else [(4, 20, 2, "{k3}"), (4, 20, 3, "{}"), (4, 20, 1, "{k1}"), (3, 0, 2, "{}"), (4, 20, 0, "{}")]
+    for (nk, age, count, failk) in mcs:
+        cfg = CACHE_CFG % dict(spec="Spec", keys=mset("k", nk), age=age, count=count, maxt=55 if quick else 66, fail=failk, extra=CACHE_PROPS)
+        res = vlib.tlc(work, "cache-mc-%d-%d-%d" % (nk, age, count), "Cache", cfg, workers=vlib.WORKERS, timeout=1500)
+        vlib.tlc_ok(res, "Cache exhaustive")
+        states += res["distinct"]
+        trans += res["states"]
+        notes.append("Cache %d keys, Age %d, Count %d, FailKeys %s: %d distinct states, %d transitions, %.0fs" % (nk, age, count, failk, res["distinct"], res["states"], res["wall"]))
+    # (2) behaviours of the model replayed on the real cache under the virtual clock
+    progs = []
+    gens = [(4, 20, 2, "{k3}"), (4, 20, 3, "{}"), (3, 20, 1, "{}"), (4, 20, 1, "{k2}"), (4, 0, 2, "{}"), (4, 20, 0, "{k1}"), (5, 30, 4, "{k5}")]
+    num, depth = (40, 40) if quick else (600, 70)
+    for gi, (nk, age, count, failk) in enumerate(gens):
+        cfg = CACHE_CFG % dict(spec="GSpec", keys=mset("k", nk), age=age, count=count, maxt=100000, fail=failk, extra="CONSTANT Depth = %d\nINVARIANT Emit" % depth)
+        res = vlib.tlc(work, "cache-gen%d" % gi, "MCCache", cfg, simulate="num=%d" % num, depth=depth + 2, seed=seed + gi, workers=1, timeout=900)
+        ps = vlib.tlc_prints(res["out"], "PROG")
+        if "Error:" in res["out"] or not ps:
+            raise Inconclusive("MCCache generator failed:\n" + res["out"][-2000:])
+        progs += ps
+    pf, tf = work.path("cache-progs.ndjson"), work.path("cache-trace.ndjson")
+    vlib.write_programs(pf, progs)
+    env = dict(vlib.GOENV, VERIF_CACHE_PROGS=pf, VERIF_CACHE_TRACE=tf)
+    rc, out, dt = vlib.run(["go", "test", "-overlay", ovf, "-vet=off", "-count=1", "-run", "TestVerifDriver", "./internal/cache"],
+                           cwd=vlib.REPO, env=env, timeout=1200, check=False)
+    if rc != 0 or not os.path.exists(tf):
+        raise Inconclusive("in-package cache driver failed:\n" + out[-3000:])
+    vcfg = "SPECIFICATION TraceSpec\nINVARIANT Report\nPOSTCONDITION Consumed\nCHECK_DEADLOCK FALSE\n"
+    r2 = vlib.tlc(work, "cache-val", "TraceCache", vcfg, files={tf: "trace.ndjson"}, workers=1, timeout=1500, java_opts="-Xss64m")
+    vs = vlib.tlc_prints(r2["out"], "VERDICT")
+    if "Model checking completed. No error has been found." not in r2["out"] or len(vs) != 1:
+        raise Inconclusive("TraceCache did not run to the end:\n" + r2["out"][-3000:])
+    v = vs[0]
+    if v["stats"]["pruned"] == 0:
+        raise Inconclusive("no entry was ever pruned in the replayed behaviours (vacuous)")
+    violations = []
+    for k, f in enumerate(v["fails"][:30]):
+        pid = int(f["trace"].split("-")[1]) - 1
+        violations.append((vlib.save_replay(prop, f["trace"], {"property": prop, "kind": "cache", "failure": f, "program": progs[pid], "seed": seed}), f))
+    cov = {"states": states, "transitions": trans, "traces_validated_against_impl": len(progs),
+           "trace_events": v["stats"]["events"], "trace_events_checked": v["stats"]["checked"], "entries_pruned": v["stats"]["pruned"],
+           "evaluations": len(progs), "distinct_nontrivial": len({json.dumps(p["ops"]) for p in progs}),
+           "rule": "behaviours of spec/Cache.tla (tlc -simulate of MCCache, 7 settings of Age/Count/failing keys incl. Count 0 and 1, Age 0) replayed by an in-package driver "
+                   "(go test -overlay: cache.go rewritten onto a virtual clock, timers and spawned prunes run when the behaviour says so); distinct operation sequences counted; "
+                   "every behaviour has %d operations" % depth,
+           "samples": [progs[0]["ops"][:12]], "model_checking": notes, "rewrites": rew, "exhaustive": False,
+           "failures": [f for _, f in violations][:10]}
+    vlib.write_evidence(prop, tier, seed, "model_checking", cov, [
+        "sequential grain: callbacks that block while Delete has dropped the cache mutex are not interleaved with other operations (C12 covers the lock order)",
+        "the syntactic rewrite of cache.go (time.Now, time.AfterFunc, *time.Timer, go c.pruneCount) preserves its behaviour; unknown clock or goroutine uses make the check inconclusive",
+        "TLC and the Go toolchain are sound"], time.time() - t0, len(violations))
+    if violations:
+        for path, f in violations[:5]:
+            print("VIOLATION property=%s replay=%s" % (prop, path))
+            log("  trace %s event %d (%s %s): clauses %s members %s" % (f["trace"], f["i"], f["op"]["op"], f["op"]["key"], ",".join(f["clauses"]), f["members"]))
+        return 1
+    return 0
+
+
+CHECKS["C20"] = c20
